@@ -70,12 +70,27 @@ fn ptr_same<'a, T>(a: &Option<&'a T>, b: &Option<&'a T>) -> bool {
 }
 
 pub fn selectors(pop: &[i32; 3], tape: &Tape) {
+    moved(&Best, pop, tape);
+    moved(&Worst, pop, tape);
+    moved(&Random, pop, tape);
     twice(tape, |r| Best.select(pop, r).ok(), ptr_same);
     twice(tape, |r| Worst.select(pop, r).ok(), ptr_same);
     twice(tape, |r| Random.select(pop, r).ok(), ptr_same);
     interleaved(tape, || Random, |s, r| s.select(pop, r).ok(), ptr_same);
 }
+/// the same call on the population and on a COPY of it stored elsewhere, from clones of one tape: the selected
+/// POSITION must agree (nothing but contents and generator state - in particular no address - may matter)
+pub fn moved<S: Selector<[i32; 3]>>(sel: &S, pop: &[i32; 3], tape: &Tape) {
+    let copy: [i32; 3] = *pop;
+    let (mut r1, mut r2) = (tape.clone(), tape.clone());
+    let pos = |p: &[i32; 3], x: &i32| unsafe { (x as *const i32).offset_from(p.as_ptr()) };
+    let a = sel.select(pop, &mut r1).ok().map(|x| pos(pop, x));
+    let b = sel.select(&copy, &mut r2).ok().map(|x| pos(&copy, x));
+    assert!(a == b, "C16 the selection depends on where the population is stored, not only on its contents and the generator state");
+    assert!(r1.same_state(&r2), "C16 moved population: generator states differ");
+}
 pub fn tournament(pop: &[i32; 3], tape: &Tape) {
+    moved(&Tournament::binary(), pop, tape);
     twice(tape, |r| Tournament::binary().select(pop, r).ok(), ptr_same);
     interleaved(tape, || Select::new(Tournament::binary()), |s, r| s.apply(pop, r).ok(), ptr_same);
 }
